@@ -29,10 +29,14 @@ Members(h) == IF h = "a" THEN {"a", "m"} ELSE {h}
 WildDen(c) == CASE c = "any"   -> Syms
                 [] c = "other" -> Syms \cap {"o"}
                 [] c = "tns"   -> Syms \ {"o"}
+(* "x": a leaf given by the explicit sequence of names it matches (used when real  *)
+(* schemas are projected into this vocabulary: substitution groups, wildcards)    *)
 Matches(kind, x, a) == CASE kind = "e" -> a = x
                          [] kind = "h" -> a \in Members(x)
                          [] kind = "w" -> a \in WildDen(x)
-IsLeaf(m) == m[1] \in {"e", "h", "w"}
+                         [] kind = "x" -> \E i \in DOMAIN x : x[i] = a
+                         [] kind = "X" -> \E i \in DOMAIN x : x[i] = a      \* explicit set of a WILDCARD
+IsLeaf(m) == m[1] \in {"e", "h", "w", "x", "X"}
 
 ------------------------------------------------------------------------------
 (* Counted regular expressions over positions, with smart constructors        *)
@@ -97,7 +101,8 @@ AllBranches(C, a) == UNION {Live(Branches(r, a)) : r \in C}
 
 (* XSD 1.1: a wildcard does not take a child that a competing element         *)
 (* particle can take (validation path)                                        *)
-Prune(bs) == IF Ver = "1.1" /\ \E b \in bs : b[2] # "w" THEN {b \in bs : b[2] # "w"} ELSE bs
+IsWild(k) == k \in {"w", "X"}
+Prune(bs) == IF Ver = "1.1" /\ \E b \in bs : ~IsWild(b[2]) THEN {b \in bs : ~IsWild(b[2])} ELSE bs
 
 Step(C, a)     == {b[3] : b \in Prune(AllBranches(C, a))}
 StepLang(C, a) == {b[3] : b \in AllBranches(C, a)}
@@ -109,10 +114,10 @@ PidKinds(C, a) == {<<b[1], b[2]>> : b \in AllBranches(C, a)}
 UPAConflict(C) ==      \* two different particles compete for the same child
   \E a \in Syms : \E p \in PidKinds(C, a) : \E q \in PidKinds(C, a) :
      /\ p[1] # q[1]
-     /\ Ver = "1.0" \/ (p[2] = "w") = (q[2] = "w")
+     /\ Ver = "1.0" \/ IsWild(p[2]) = IsWild(q[2])
 MixedConflict(C) ==    \* 1.1 only: an element and a wildcard compete
   \E a \in Syms : \E p \in PidKinds(C, a) : \E q \in PidKinds(C, a) :
-     p[1] # q[1] /\ p[2] = "w" /\ q[2] # "w"
+     p[1] # q[1] /\ IsWild(p[2]) /\ ~IsWild(q[2])
 CounterConflict(C) ==  \* some child can be consumed in two ways (particles or counters)
   \E a \in Syms : Cardinality(AllBranches(C, a)) > 1
 
@@ -195,7 +200,7 @@ Follow(r) ==
 PosOverlap(p, q) ==
   /\ p[1] # q[1]
   /\ \E a \in Syms : Matches(p[2], p[3], a) /\ Matches(q[2], q[3], a)
-  /\ Ver = "1.0" \/ (p[2] = "w") = (q[2] = "w")
+  /\ Ver = "1.0" \/ IsWild(p[2]) = IsWild(q[2])
 StaticDet(m) ==
   LET u  == Unroll(m, <<>>, <<>>)
       f  == First(u)
